@@ -47,6 +47,16 @@ def covers(canon, v):
 class Runner:
     def __init__(self, ctx):
         self.ctx = ctx
+        self.cache = {}          # one construct object per recipe: all values of a recipe go through the same object, as in real use
+
+    def con(self, r):
+        key = repr(r)
+        d = self.cache.get(key)
+        if d is None:
+            if len(self.cache) > 2000:
+                self.cache.clear()
+            d = self.cache[key] = mk(r)
+        return d
 
     def roundtrip(self, r, v, kw, cls, domain_v=None):
         """domain_v: the value whose membership in the symmetric domain decides (v may additionally carry stale values in
@@ -57,7 +67,7 @@ class Runner:
         mb = model_build(r, v, kw)
         case = {"recipe": r, "kw": kw, "value": tag(v), "cls": cls}
         try:
-            d = mk(r)
+            d = self.con(r)
         except Exception:
             ctx.count("recipe_not_constructible")
             return False
@@ -311,7 +321,9 @@ def derived_steering():
     N = ["this", "n"]
     out = []
     for comp in (["bin", "+", N, 1], ["bin", "*", N, 2], ["bin", "&", N, 1], ["bin", "-", 4, N], ["bin", "|", N, 4], ["bin", "&", ["bin", "|", ["bin", "<<", N, 1], 1], 7],
-                 ["bin", "|", ["bin", "&", N, 1], ["bin", "<<", ["bin", ">", N, 2], 2]], ["bin", "^", N, 3]):
+                 ["bin", "|", ["bin", "&", N, 1], ["bin", "<<", ["bin", ">", N, 2], 2]], ["bin", "^", N, 3],
+                 # the constant on the LEFT of a non-commutative operator (reflected operators must keep the operand order)
+                 ["bin", "<<", 1, N], ["bin", ">>", 64, N], ["bin", "-", 9, ["bin", "*", 2, N]], ["bin", "//", 12, ["bin", "+", N, 1]], ["bin", "%", 7, ["bin", "+", N, 2]], ["bin", "**", 2, N]):
         for dep in (["Bytes", ["this", "c"]], ["Array", ["this", "c"], H], ["Padding", ["this", "c"]], ["PaddedString", ["bin", "+", ["this", "c"], 1], "ascii"],
                     ["Switch", ["this", "c"], [[0, B], [1, ["name", "Int16ul"]], [2, ["Bytes", 3]]], ["name", "Int32ub"]], ["IfThenElse", ["bin", "==", ["this", "c"], 2], B, ["name", "Int24ub"]],
                     ["FixedSized", ["bin", "+", ["this", "c"], 2], H], ["Struct", [["e", ["Bytes", ["this", "_", "c"]]]]]):
@@ -421,6 +433,16 @@ def run(ctx):
             except (M.ModelGap, M.MissingKey, M.Unsized, M.Reject):
                 ctx.count("value_generation_gap")
                 break
+            if j % 3 == 1:
+                # calls that fail part-way on the same object (the last leaf made unbuildable) before the next value is built
+                from .c05 import poisoned
+                try:
+                    dd = R.con(r)
+                    for w in poisoned(v)[:3]:
+                        lib_build(dd, w, kw)
+                        ctx.count("failing_builds_interleaved")
+                except Exception:
+                    pass
             good = R.roundtrip(r, v, kw, "random")
             ok += good
             if good:
